@@ -83,12 +83,14 @@ pub fn detect_win_multiplicator(
 
     // 4. Check special MTU cases
     if mss > 0 {
+        // An MTU that does not fit in 16 bits cannot divide a 16-bit window: skip it instead of
+        // saturating to 65535 (which would report window 65535 as `mtu*1`).
         if total_header > 0 {
-            check_mtu_div!(mss.saturating_add(total_header));
+            check_mtu_div!(mss.checked_add(total_header).unwrap_or(0));
         } else {
             match ip_ver {
-                IpVersion::V4 => check_mtu_div!(mss.saturating_add(MIN_TCP4)),
-                IpVersion::V6 => check_mtu_div!(mss.saturating_add(MIN_TCP6)),
+                IpVersion::V4 => check_mtu_div!(mss.checked_add(MIN_TCP4).unwrap_or(0)),
+                IpVersion::V6 => check_mtu_div!(mss.checked_add(MIN_TCP6).unwrap_or(0)),
                 _ => {}
             }
         }
